@@ -31,6 +31,9 @@ META = {
             "resize_file, unordered_map iteration order inside batch/clear (any order), fsync is not modelled.",
 }
 
+# ---- additions of the translator / tie session (appended to the manifest texts)
+META["text"] += " JsonFileStore: every flush runs under a crash recorder (write / writev / rename interposed): the directory as a process killed before each effect and in the middle of each write would leave it is reopened by a fresh JsonFileStore and must show the last completed flush or the flush in progress; the order of the durable effects is compared with the model's jflush_steps. GenTie.v: the KV limits, magic, version and plausibility window of the model against the headers' current values (coq/Gen/Constants.v, regenerated every run)."
+
 
 def hx(b):
     return bytes(b).hex() if b else "-"
